@@ -88,4 +88,11 @@ TEXT = {
         design_ref="DESIGN.md section 3, C20",
         level_note=NOTE_COMMON,
         technique="ThreadSanitizer + bitwise concurrent-vs-sequential comparison over randomized thread launches"),
+    "C07": dict(
+        level_text="Exploration with an online invariant checker installed at the guarded hook: ~100000 (quick) hook events per run over solver runs of 11 configurations (every spectral transformation "
+                   "and inner product) and over the Arnoldi/Lanczos classes driven directly through restart sequences (exact and arbitrary, single and double shifts); each event is judged against an "
+                   "independently built dense extended-precision model of the iterated operator; clean-domain seeded exploration + fixed corpus over the finding-prone domain.",
+        design_ref="DESIGN.md sections 3 (C07) and 4",
+        level_note=NOTE_COMMON + " The checker reads the factorization through the guarded friend declaration; hooks are additive and off without SPECTRA_VERIF.",
+        technique="online trace checker at guarded hook points (invariant assertions against an extended-precision reference model), ASan+UBSan build"),
 }
